@@ -40,12 +40,20 @@ var kindsB = []string{
 	"inline.symbol", "error.win32", "job.list", "rportfwd.add", "ppid",
 }
 
+// rune generators are built once: rapid expands a range table into a slice of all its runes
+// (megabytes for the astral planes), which must not happen per draw
+var (
+	bmpShort    = rapid.StringOfN(rapid.RuneFrom(nil, rangeTable(0xa1, 0xd7ff)), 1, 6, -1)
+	astralShort = rapid.StringOfN(rapid.RuneFrom(nil, rangeTable(0x10000, 0x1ffff)), 1, 4, -1)
+	bmpMeta     = rapid.StringOfN(rapid.RuneFrom(nil, rangeTable(0xa1, 0xd7ff)), 1, 10, -1)
+)
+
 func genTextB(t *rapid.T, l string) string {
 	// unique-ish marker plus a tail from an adversarial class; no NULs at the ends (terminator stripping is the readers' contract)
 	tail := rapid.OneOf(
 		rapid.StringMatching(`[A-Za-z0-9_.\-]{0,12}`),
-		rapid.StringOfN(rapid.RuneFrom(nil, rangeTable(0xa1, 0xd7ff)), 1, 6, -1),
-		rapid.StringOfN(rapid.RuneFrom(nil, rangeTable(0x10000, 0x1ffff)), 1, 4, -1),
+		bmpShort,
+		astralShort,
 		rapid.Just("with space"),
 		rapid.Just("C:\\dir\\sub"),
 	).Draw(t, l)
